@@ -1,9 +1,9 @@
 package checks
 
 import (
-	"strings"
 	"fmt"
 	"math/rand"
+	"strings"
 
 	"verif/driver"
 	"verif/internal/aspec"
